@@ -7,6 +7,7 @@ import CdnsVerif.Driver.Util
 import CdnsVerif.Driver.Sch
 import CdnsVerif.Model.File
 import CdnsVerif.Spec.Cdns
+import CdnsVerif.Props.C05
 namespace CdnsVerif.Driver.Blk
 open CdnsVerif.Spec.Cbor CdnsVerif.Model CdnsVerif.Model.Schema CdnsVerif.Model.Structs CdnsVerif.Model.Decoder CdnsVerif.Model.File CdnsVerif.Driver
 
@@ -31,6 +32,38 @@ def handle (args : List String) : String :=
         match Spec.Cdns.interpretItem file with
         | .ok f => s!"M {f.dump} #rewrite={same},conforms={conf},blocks={blocks.length}"
         | .error e => s!"M invalid:{e} #rewrite={same},conforms={conf}"
+  | _ => "bad-op"
+
+/-- the reader used block by block on a (possibly truncated) input: header, then `readBlock` until eof or an error;
+    answer in the notation of the harness layer `rd`: preamble, the blocks read, then `EOF` or the error -/
+def readCut (bs : Bytes) : String :=
+  let fuel := 4 * bs.length + 10
+  let header : Prog (Val × Nat × Bool) := do
+    let (len, indef) ← readArrayStart
+    if len ≠ 3 ∧ !indef then .throw .decoder else do
+    let t ← readTextstring fuel
+    if upper t ≠ cdnsText then .throw .decoder else do
+    let pv ← readVal fuel filePreamble
+    let (cnt, bindef) ← readArrayStart
+    pure (pv, cnt, bindef)
+  match header.run bs with
+  | .error e => " " ++ Sch.showErr e
+  | .ok ((pv, cnt, bindef), rest) =>
+    let (blocks, status) := Props.C05.readAll (readBlock fuel) (bs.length + 2) ⟨bindef, cnt, 0⟩ 0 rest
+    let tail := match status with | none => "EOF" | some e => Sch.showErr e
+    let file : Item := .arr .imm [.tstr .imm cdnsText, toItem filePreamble pv, .arrI (blocks.map fun b => toItem block b.1)]
+    match Spec.Cdns.interpretItem file with
+    | .ok f => (f.dump.dropEnd 3).toString ++ tail
+    | .error e => s!"invalid:{e} {tail}"
+
+def handleCuts (args : List String) : String :=
+  match args with
+  | [h, cuts] =>
+    match ofHex h with
+    | none => "bad-hex"
+    | some bs =>
+      let ns := (cuts.splitOn ",").filterMap String.toNat?
+      " @@ ".intercalate (ns.map fun n => "M " ++ readCut (bs.take n))
   | _ => "bad-op"
 
 end CdnsVerif.Driver.Blk
